@@ -467,8 +467,8 @@ package core
 //@   requires keys != nil
 //@   pure
 //@   ensures result1 <==> (len(keys.buf) == 0 && len(keys.macroKeys) == 0)
-//@   ensures [macro-first] len(keys.macroKeys) > 0 ==> result0 == emod(keys.macroKeys[0], 256)
-//@   ensures len(keys.macroKeys) == 0 && len(keys.buf) > 0 ==> result0 == keys.buf[0]
+//@   ensures len(keys.buf) > 0 ==> result0 == keys.buf[0]
+//@   ensures len(keys.buf) == 0 && len(keys.macroKeys) > 0 ==> result0 == emod(keys.macroKeys[0], 256)
 
 //@ func PopKey
 //@   props C03 C02 C05 C18 C01
@@ -476,26 +476,25 @@ package core
 //@   requires keys != nil
 //@   assigns keys.buf, keys.macroKeys
 //@   ensures result1 <==> (old(len(keys.buf)) == 0 && old(len(keys.macroKeys)) == 0)
-//@   ensures [macro-first] old(len(keys.macroKeys)) > 0 ==> result0 == emod(old(keys.macroKeys[0]), 256) && keys.macroKeys == old(keys.macroKeys)[1:] && keys.buf == old(keys.buf)
-//@   ensures old(len(keys.macroKeys)) == 0 && old(len(keys.buf)) > 0 ==> result0 == old(keys.buf[0]) && keys.buf == old(keys.buf)[1:] && keys.macroKeys == old(keys.macroKeys)
+//@   ensures old(len(keys.buf)) > 0 ==> result0 == old(keys.buf[0]) && keys.buf == old(keys.buf)[1:] && keys.macroKeys == old(keys.macroKeys)
+//@   ensures old(len(keys.buf)) == 0 && old(len(keys.macroKeys)) > 0 ==> result0 == emod(old(keys.macroKeys[0]), 256) && keys.macroKeys == old(keys.macroKeys)[1:] && keys.buf == old(keys.buf)
 //@   ensures result1 ==> keys.buf == old(keys.buf) && keys.macroKeys == old(keys.macroKeys)
-//@   ensures @C18 [macro-key-is-its-encoding] old(len(keys.macroKeys)) > 0 ==> unit(result0) == enc1(old(keys.macroKeys[0]))
+//@   ensures @C03 [macro-keys-before-type-ahead] old(len(keys.macroKeys)) > 0 ==> keys.macroKeys == old(keys.macroKeys)[1:] && keys.buf == old(keys.buf)
+//@   ensures @C18 [macro-key-is-its-encoding] old(len(keys.buf)) == 0 && old(len(keys.macroKeys)) > 0 ==> unit(result0) == enc1(old(keys.macroKeys[0]))
 
 //@ func PopForce
 //@   props C03 C05 C01
 //@   terminates
 //@   requires keys != nil
 //@   assigns keys.buf, keys.macroKeys, keys.mustWait
-//@   ensures old(len(keys.macroKeys)) == 0 && old(len(keys.buf)) > 0 ==> result0 == old(keys.buf[0]) && keys.buf == old(keys.buf)[1:] && keys.macroKeys == old(keys.macroKeys)
-//@   ensures [macro-first] old(len(keys.macroKeys)) > 0 ==> keys.macroKeys == old(keys.macroKeys)[1:] && keys.buf == old(keys.buf)
+//@   ensures old(len(keys.buf)) > 0 ==> result0 == old(keys.buf[0]) && keys.buf == old(keys.buf)[1:] && keys.macroKeys == old(keys.macroKeys)
 
 //@ func (*Keys).Pop
 //@   props C03 C05 C18 C01
 //@   terminates
 //@   requires k != nil
 //@   assigns k.buf, k.macroKeys, k.matched
-//@   ensures old(len(k.macroKeys)) == 0 && old(len(k.buf)) > 0 ==> result0 == old(k.buf[0]) && k.buf == old(k.buf)[1:] && k.macroKeys == old(k.macroKeys) && k.matched == old(k.matched) + unit(result0)
-//@   ensures [macro-first] old(len(k.macroKeys)) > 0 ==> result0 == emod(old(k.macroKeys[0]), 256) && k.macroKeys == old(k.macroKeys)[1:] && k.buf == old(k.buf)
+//@   ensures old(len(k.buf)) > 0 ==> result0 == old(k.buf[0]) && k.buf == old(k.buf)[1:] && k.macroKeys == old(k.macroKeys) && k.matched == old(k.matched) + unit(result0)
 
 //@ func (*Keys).Feed
 //@   props C03 C18 C01
